@@ -45,3 +45,17 @@ Theorem null_in_a_referenced_column_gives_no_statement : forall scfg rl rw n, si
   doc_rule_line scfg rl (srow_of_raw rw) = None.
 Proof. exact null_in_a_referenced_column_suppresses. Qed.
 Print Assumptions null_in_a_referenced_column_gives_no_statement.
+
+(* REFERENCING OBJECT MAPS: a NULL (or a token of na_values: `sval` is None for both) in a join key joins with NOTHING, not even with another NULL.
+   Generation rules: no parent row is joined through a condition one side of which is missing.  Engine: every row of the merged frame comes from a
+   child row and a parent row that hold a value, the same one, under every join condition. *)
+From Morph Require Import Proofs.JoinP Proofs.NullJoinP.
+Theorem null_join_key_joins_nothing : forall cfg tables child src conds cd p,
+  In cd conds -> sval cfg child (fst cd) = None \/ sval cfg p (snd cd) = None -> ~ In p (joined_rows cfg tables child src conds).
+Proof. exact null_key_joins_nothing_spec. Qed.
+Print Assumptions null_join_key_joins_nothing.
+Theorem engine_merged_rows_have_every_join_key : forall child parent conds m, merge_data child parent conds = Ok m ->
+  forall x, In x m -> exists c p, In c child /\ In p parent /\ x = c ++ add_prefix parent_prefix p /\
+    forall cd, In cd conds -> exists a, rget (fst cd) c = Some a /\ rget (snd cd) p = Some a.
+Proof. exact merged_rows_have_all_keys. Qed.
+Print Assumptions engine_merged_rows_have_every_join_key.
